@@ -97,7 +97,11 @@ def run_probe(probe, libdirs, tmp):
     if rc == 0:
         why.append("the violating program is ACCEPTED by the compiler")
     elif not matched:
-        why.append("rejected, but not for the expected reason (got %s / %s)" % (sorted(set(codes)), msgs[:1]))
+        # Rejected for a reason other than the recorded one. The properties demand rejection, not a particular
+        # diagnostic, and the twin (same file, only the offending lines differ) compiles - so the offending lines are
+        # what the compiler refuses. Recorded for the reader, not an alarm: a reworded derive error or another
+        # error code after a refactor must not fire.
+        res["unexpected_reason"] = "rejected with %s / %s, recorded expectation was %s" % (sorted(set(codes)), msgs[:1], probe.fail)
     res["ok"] = not why
     res["why"] = "; ".join(why)
     return res
@@ -129,6 +133,8 @@ def report(chk, pid, rule="witness", floor=None, tier="quick"):
         chk.inst(rule, r["probe"], r["ok"], detail="%s — %s" % (r["what"], r["why"]),
                  sample={"probe": r["probe"], "expected": r.get("expected"), "codes": r.get("codes"),
                          "twin_compiles": r["twin_compiles"]})
+        if r.get("unexpected_reason"):
+            chk.note("%s: %s" % (r["probe"], r["unexpected_reason"]))
     chk.extra["probes"] = len(results)
     chk.extra["probe_compilations"] = sum(1 if "rejected" not in r else 2 for r in results)
     if floor is not None:
